@@ -25,6 +25,7 @@ from . import expr_native as _native
 
 LEVEL = "proof"
 _native.install(REG) if not _native.NATIVE.cases else None
+_native.install_chain() if not any(q.endswith('_visit_binary_operator_chain') for q, _, _ in _native.NATIVE.cases) else None
 NATIVE = _native.NATIVE
 NATIVE_BUDGET = {"quick": 40, "thorough": 600}
 
